@@ -125,8 +125,8 @@ def backend_layer(run: Run, progress: bool = False) -> None:
     items: List[Item] = []
     for ti, t in enumerate(TEMPLATES):
         for bi, b in enumerate(BACKENDS):
-            if quick and (ti + bi + run.seed) % 2 and b in ("sqlite", "athena", "sa_core"):
-                continue     # quick: the dialect variants of a shared base class alternate
+            if quick and (ti + bi + run.seed) % 2 and b == "sa_core":
+                continue     # quick: Core alternates (it shares every visitor method with the ORM visitor)
             n = t["n"]
             cap = min(n, (7 if b in ("sql", "sqlite", "athena") else 5) if quick else 12)
             items.append(Item(f"be_{t['name'].replace('-', '_')}_{b}", "mask: int", f"0 <= mask < {2 ** cap}",
